@@ -48,6 +48,11 @@ func (s *SortedCache) Peek() (min []byte, ok bool) {
 	return s.tree.Min()
 }
 
+// Last returns the maximum element without removing it.
+func (s *SortedCache) Last() (max []byte, ok bool) {
+	return s.tree.Max()
+}
+
 func (s *SortedCache) Delete(key []byte) {
 	deleted, ok := s.tree.Delete(key)
 	if ok {
